@@ -34,6 +34,11 @@ static double now_s(void)
   struct timespec ts; clock_gettime(CLOCK_MONOTONIC, &ts);
   return ts.tv_sec + ts.tv_nsec / 1e9;
 }
+static double cpu_s(void)
+{
+  struct timespec ts; clock_gettime(CLOCK_PROCESS_CPUTIME_ID, &ts);
+  return ts.tv_sec + ts.tv_nsec / 1e9;
+}
 
 // ------------------------------------------------------------------ compile helpers
 typedef struct { YR_COMPILER* c; int first_code; char first_msg[160]; int errors; int warnings; } CERR;
@@ -188,9 +193,9 @@ static void do_scan(YR_RULES* rules, const uint8_t* buf, size_t len, const char*
   for (int r = 0; r < reps; r++)
   {
     o.off = 0; o.out[0] = 0; o.n_tmm = 0; o.n_slow = 0;
-    double t0 = now_s();
+    double t0 = now_s(), c0 = cpu_s();
     rc = yr_scanner_scan_mem(sc, buf, len);
-    double dt = now_s() - t0;
+    double dt = now_s() - t0, dc = cpu_s() - c0;
     printf(" %s=%s", label, errname(rc));
     if (o.n_tmm)
     {
@@ -201,7 +206,7 @@ static void do_scan(YR_RULES* rules, const uint8_t* buf, size_t len, const char*
     }
     if (o.off) printf(" %s.res=%s", label, o.out);
     if (o.mdl_bad) printf(" %s.BAD_DATA_LENGTH=%d", label, o.mdl_bad);
-    printf(" t=%s:%.3f t=slowcb:%d", label, dt, o.n_slow);
+    printf(" t=%s:%.3f t=%scpu:%.3f t=slowcb:%d", label, dt, label, dc, o.n_slow);
   }
   yr_scanner_destroy(sc);
 }
@@ -238,11 +243,14 @@ static void set_cfg(void)
   if ((v = geti("mspr", -1)) >= 0) yr_set_configuration_uint32(YR_CONFIG_MAX_STRINGS_PER_RULE, (uint32_t) v);
   if ((v = geti("mmd", -1)) >= 0) yr_set_configuration_uint32(YR_CONFIG_MAX_MATCH_DATA, (uint32_t) v);
 }
+// the configuration installed by yr_initialize (captured in main), so that cases without explicit
+// settings run under the library's real defaults
+static uint32_t init_ss, init_mspr, init_mmd;
 static void reset_cfg(void)
 {
-  yr_set_configuration_uint32(YR_CONFIG_STACK_SIZE, DEFAULT_STACK_SIZE);
-  yr_set_configuration_uint32(YR_CONFIG_MAX_STRINGS_PER_RULE, DEFAULT_MAX_STRINGS_PER_RULE);
-  yr_set_configuration_uint32(YR_CONFIG_MAX_MATCH_DATA, DEFAULT_MAX_MATCH_DATA);
+  yr_set_configuration_uint32(YR_CONFIG_STACK_SIZE, init_ss);
+  yr_set_configuration_uint32(YR_CONFIG_MAX_STRINGS_PER_RULE, init_mspr);
+  yr_set_configuration_uint32(YR_CONFIG_MAX_MATCH_DATA, init_mmd);
 }
 
 // ------------------------------------------------------------------ function-level commands
@@ -358,6 +366,9 @@ int main()
   static char* toks[MAXKV + 2];
   setvbuf(stdout, NULL, _IOLBF, 0);
   yr_initialize();
+  yr_get_configuration_uint32(YR_CONFIG_STACK_SIZE, &init_ss);
+  yr_get_configuration_uint32(YR_CONFIG_MAX_STRINGS_PER_RULE, &init_mspr);
+  yr_get_configuration_uint32(YR_CONFIG_MAX_MATCH_DATA, &init_mmd);
   while (getline(&line, &cap, stdin) > 0)
   {
     int n = split(line, toks, MAXKV + 2);
